@@ -130,6 +130,12 @@ BLOCKS: list[tuple[str, str]] = [
     ("esc-misc", "qaa \\# qab \\- qac \\> qad \\* qae\n"),
     ("strike-tilde", "~60 qaa, ~130 qab qac\n"),
     ("ol-big", "99. qaa qab qac\n100. qad qae qaf\n"),
+    ("nested-direct", "- - qaa qab\n  - qac\n- qad\n"),
+    ("ol-nested-direct", "1. - qaa\n   - qab\n2. qac\n"),
+    ("item-code-first", "- ```\n  code\n  ```\n- qaa qab\n"),
+    ("item-quote-first", "- > qaa qab\n  > qac\n- qad\n"),
+    ("item-heading-first", "- # qaa\n\n  qab qac\n- qad\n"),
+    ("quote-list-first", "> - - qaa qab\n>   - qac\n"),
 ]
 
 
@@ -214,3 +220,38 @@ def special_key(case: dict[str, Any]) -> str:
     if case.get("fam") == "para" and "@" in case["key"]:
         pos = "@first" if case["key"].split("@")[-1].split("/")[0] == "0" else "@inner"
     return f"{case['fam']}[{str(case['special']).replace(' ', '_')}{pos}]"
+
+
+# ------------------------------------------------------------------------------------------
+# mechanism classes for finding keys (C01/C02/C03)
+# ------------------------------------------------------------------------------------------
+
+WHOLE_LINE = {"---", "--", "***", "___", "_____", "_ _ _", "* * *", "- -", "[x]:", "=", "==="}
+TAGLIKE = {"tag", "tag-close", "jcomment", "var", "comment", "tag-pair", "quote-tag", "commentnl", "tagnl-before"}
+LIST_MARKERS = {"-", "+", "*", "1.", "1)", "12."}
+
+
+def finding_class(case: dict[str, Any]) -> str:
+    """
+    The skeleton part of a finding key.  Skeletons that exercise one narrowly described mechanism share a class
+    name, so a recorded finding names the mechanism, not one word; everything else keeps its own skeleton key.
+      first-word-alone  the first word of a paragraph / kept-newline segment is never escaped; a word that only
+                        acts as a block when it is alone (or first) on its line, left alone there by wrapping
+      closing-tag       a closing tag at the start of a continuation line is un-indented by design
+      tag-newline       a newline next to a tag/comment is significant (also one that wrapping produced itself)
+      marker-after-kept-newline  a list marker right after a kept newline (hard break / tag newline) starts a list
+                        in the source already; only spacing around it is at stake
+    """
+    fam, sp = case.get("fam"), str(case.get("special"))
+    sk = special_key(case)
+    if fam == "para" and sk.endswith("@first]") and sp in WHOLE_LINE:
+        return "first-word-alone"
+    if fam in ("hardbreak", "tagnl") and "+" in sp and sp.split("+", 1)[1] in WHOLE_LINE:
+        return "first-word-alone"
+    if fam in ("hardbreak", "tagnl") and "+" in sp and sp.split("+", 1)[1] in LIST_MARKERS:
+        return "marker-after-kept-newline"
+    if sp in ("tagnl-before", "tag-close"):
+        return "closing-tag"
+    if sp in TAGLIKE or (fam == "para2" and any(x in TAGLIKE for x in sp.split("+"))):
+        return "tag-newline"
+    return sk
